@@ -441,6 +441,7 @@ func c07Boundary(x *mon.Ctx) {
 }
 
 func c07(x *mon.Ctx) {
+	enableTwins(x)
 	if !x.Quick() {
 		defer func() {
 			x.Fuzz("FuzzSignedCollateral", 200000) // mutated member texts, re-signed by the genuine signer: library accepts => reference accepts
